@@ -278,6 +278,11 @@ def check(ctx: Ctx) -> None:
     from .C03 import check_endmarker_requeue
     check_endmarker_requeue(ctx, "C04.k")
 
+    with ctx.obligation("C04.m", "empty-read-is-eof") as ob:
+        # a transport that signals the end by an empty read (ProxyIO) must surface as EOFError too, or gateway._error stays unset
+        from .C08 import check_empty_header_eof
+        check_empty_header_eof(repo, ob)
+
     # the connection-loss sweep runs under the receive lock, like every other close: a setcallback in progress still gets its endmarker
     from .C10 import check_closers_serialised
     check_closers_serialised(ctx, "C04.l")
